@@ -87,8 +87,10 @@ pub fn substance_from_formula(
                 let subst = substances.get(symbols.get(sym).unwrap()).unwrap();
                 match subst.get("molar_mass") {
                     Ok(subst_molar_mass) => {
-                        let subst_molar_mass = (&subst_molar_mass * &count).unwrap();
-                        total_molar_mass = (&total_molar_mass + &subst_molar_mass).unwrap();
+                        // None when the element's molar mass is not a
+                        // mass per amount of substance.
+                        let subst_molar_mass = (&subst_molar_mass * &count)?;
+                        total_molar_mass = (&total_molar_mass + &subst_molar_mass)?;
                     }
                     Err(_) => return None,
                 }
